@@ -469,6 +469,14 @@ def check_partition_sites(ctx, rule="R5.2", only=None):
                   isinstance(x.targets[0], ast.Name) and x.targets[0].id == it.id]
             it_def = dd[0] if len(dd) == 1 else None
         its = " ".join(ast.unparse(it).split())
+        if it_def is not None:
+            # the list of (lo, hi) pairs given a name: bounds = list(zip(starts[:-1], starts[1:]))
+            d_ = it_def
+            if isinstance(d_, ast.Call) and ast.unparse(d_.func) in ("list", "tuple") and len(d_.args) == 1:
+                d_ = d_.args[0]
+            dt = " ".join(ast.unparse(d_).split())
+            if dt in ("zip(%s[:-1], %s[1:])" % (ST, ST), "zip(%s, %s[1:])" % (ST, ST)):
+                its = dt
         form = None
         subst = {}
         if its == "range(%s)" % NJ and isinstance(g.target, ast.Name):
@@ -694,6 +702,23 @@ def check_partition_arithmetic(ctx, rule):
                  "(n_jobs, sizes, [0] + cumsum(sizes)): %s" % (
                      ok_q, Q, ok_r, T(incs[0].target.slice.upper) if len(incs) == 1 and isinstance(
                          incs[0].target.slice, ast.Slice) and incs[0].target.slice.upper is not None else "?", ok_ret)
+    if not ok:
+        # form C, integer arithmetic: sizes = [q + 1] * r + [q] * (j - r) with q = n // j, r = n % j (sum: n), starts =
+        # the running sums with a leading 0 (itertools.accumulate(sizes, initial=0) or [0] + list(accumulate(sizes)))
+        rets = [r for r in ast.walk(fn.node) if isinstance(r, ast.Return) and r.value is not None]
+        if len(rets) == 1 and isinstance(rets[0].value, ast.Tuple) and len(rets[0].value.elts) == 3:
+            e0, e1, e2 = [T(x) for x in rets[0].value.elts]
+            J = e0
+            q, r_ = "%s // %s" % (n, J), "%s %% %s" % (n, J)
+            sizes = ("[%s + 1] * (%s) + [%s] * (%s - %s)" % (q, r_, q, J, r_),
+                     "[%s + 1] * (%s) + [%s] * (%s - (%s))" % (q, r_, q, J, r_))
+            ok_s = e1 in sizes or e1 in tuple("list(%s)" % x for x in sizes)
+            ok_t = any(e2 in ("list(accumulate(%s, initial=0))" % x, "[0] + list(accumulate(%s))" % x,
+                              "list(itertools.accumulate(%s, initial=0))" % x) for x in sizes)
+            ok_j = "_effective_jobs(" in J
+            if ok_s and ok_t and ok_j:
+                ok = True
+            detail += "; integer form: sizes %s, starts %s" % (ok_s, ok_t)
     ctx.check(ok, rule, "_partition_contexts covers the n rows exactly once with consecutive chunks", fn.node, fn,
               detail, construct="def BaseMAB._partition_contexts (arithmetic)")
     ej = prog.method("BaseMAB", "_effective_jobs")
